@@ -5,7 +5,8 @@ Independent of `Generated/Layout.lean`, `Model/Layout.lean`, `Model/Bits.lean` a
 table: offsets and widths below are the literal numbers of the SCION header specification
 (docs.scion.org/protocols/scion-header, draft-dekater-scion-dataplane §2), arithmetic is plain
 division / remainder on bytes.  Used (a) as executable oracle on the bytes the *implementation* encodes and
-(b) in `Theorems/C03.ref_agrees`: it reads every field of an encoded packet exactly as the model decoder.
+(b) as the reference the harness oracle `C03:ref-disagrees` compares the *encoded model's own field values*
+with (header, UDP and every SCMP message body).  No theorem relates it to the model decoder.
 
 Common header (12 bytes)
 ```
@@ -146,5 +147,41 @@ deriving Repr, DecidableEq
 def l4 (b : B) (h : RefHeader) : RefL4 :=
   let p := sub b h.hdrLenBytes h.payloadLen
   ⟨p, be p 0 2, be p 2 2, be p 4 2, be p 6 2, byte p 0, byte p 1, be p 2 2⟩
+
+/-- SCMP message as read from the SCMP specification (docs.scion.org/protocols/scmp, literal offsets inside the
+L4 payload; nothing is taken from the crate's `scmp/layout.rs`):
+```
+ all:  Type(1) Code(1) Checksum(2)
+ 1   DestinationUnreachable    Unused(4)                                    | quoted packet from 8
+ 2   PacketTooBig              Reserved(2) MTU(2)                           | quoted packet from 8
+ 4   ParameterProblem          Reserved(2) Pointer(2)                       | quoted packet from 8
+ 5   ExternalInterfaceDown     ISD(2) AS(6) InterfaceID(8)                  | quoted packet from 20
+ 6   InternalConnectivityDown  ISD(2) AS(6) Ingress(8) Egress(8)            | quoted packet from 28
+ 128 / 129  Echo Request / Reply       Identifier(2) SequenceNumber(2)      | data from 8
+ 130 / 131  Traceroute Request / Reply Identifier(2) SequenceNumber(2) ISD(2) AS(6) InterfaceID(8)   (24 bytes)
+```
+`vals` = the informational fields in specification order (ISD-AS as one 64-bit number), `zero` = the bytes the
+specification reserves / leaves unused (must be 0 in a message built by a sender), `data` = the variable part.
+Unassigned types: 8-byte header (the crate's unknown-message form), data from 8. -/
+structure RefScmp where
+  typ : Nat
+  code : Nat
+  vals : List Nat
+  zero : Nat
+  data : B
+deriving Repr, DecidableEq
+
+def scmp (p : B) : RefScmp :=
+  let t := byte p 0
+  let c := byte p 1
+  if t = 1 then ⟨t, c, [], be p 4 4, p.drop 8⟩
+  else if t = 2 then ⟨t, c, [be p 6 2], be p 4 2, p.drop 8⟩
+  else if t = 4 then ⟨t, c, [be p 6 2], be p 4 2, p.drop 8⟩
+  else if t = 5 then ⟨t, c, [be p 4 8, be p 12 8], 0, p.drop 20⟩
+  else if t = 6 then ⟨t, c, [be p 4 8, be p 12 8, be p 20 8], 0, p.drop 28⟩
+  else if t = 128 ∨ t = 129 then ⟨t, c, [be p 4 2, be p 6 2], 0, p.drop 8⟩
+  else if t = 130 then ⟨t, c, [be p 4 2, be p 6 2], be p 8 16, p.drop 24⟩
+  else if t = 131 then ⟨t, c, [be p 4 2, be p 6 2, be p 8 8, be p 16 8], 0, p.drop 24⟩
+  else ⟨t, c, [], be p 4 4, p.drop 8⟩
 
 end ScionVerif.Spec.RefDecode
